@@ -190,3 +190,15 @@ def real_outcome(fn, tree):
     except Exception as e:        # noqa: BLE001 - the class is the observation
         n = type(e).__name__
         return ("crash", n if n in EXN else "OtherError")
+
+
+def coq_eval_retry(ctx, name, requires, terms, chunk=150):
+    """ctx.coq_eval, with one more attempt (smaller files, one after the other) for the terms of a file that coqc did
+    not finish - on a loaded machine a file can run into the timeout; a second failure is reported as it is"""
+    res = ctx.coq_eval(name, requires, terms, chunk=chunk)
+    missing = [i for i, r in enumerate(res) if r is None]
+    if missing and len(missing) < len(terms):
+        again = ctx.coq_eval(name + "_retry", requires, [terms[i] for i in missing], chunk=max(20, chunk // 4), timeout=1200)
+        for i, r in zip(missing, again):
+            res[i] = r
+    return res
